@@ -265,9 +265,21 @@ def run(ctx):
         if not acc and res.violated and res.violated != "Accepted":
             # an invariant is false on a recorded state: the error trace ends in that state, l = the next line to read
             import re
-            ls = re.findall(r"(?m)^/\\ l = (\d+)", open(res.log_path).read())
+            txt = open(res.log_path).read()
+            if os.environ.get("VERIF_C37_KEEP"):
+                import shutil
+                os.makedirs(os.environ["VERIF_C37_KEEP"], exist_ok=True)
+                shutil.copy(res.log_path, os.environ["VERIF_C37_KEEP"]); shutil.copy(p, os.environ["VERIF_C37_KEEP"])
+            ls = re.findall(r"(?m)^/\\ l = (\d+)", txt)
+            acts = re.findall(r"(?m)^State \d+: <(\w+) ", txt)
             if ls:
                 matched = max(0, int(ls[-1]) - 2)
+                # the call that produced the violating state is named in the header of the last state of the error trace
+                if acts and not (0 <= matched < len(lines) and "T" + lines[matched]["e"] == acts[-1]):
+                    for alt in (matched - 1, matched + 1):
+                        if 0 <= alt < len(lines) and "T" + lines[alt]["e"] == acts[-1]:
+                            matched = alt
+                            break
         return i, p, first, lines, acc, matched, res, devs
     with concurrent.futures.ThreadPoolExecutor(max_workers=nbins) as ex:
         results = list(ex.map(validate, enumerate(groups)))
